@@ -106,6 +106,9 @@ static void run_seq(int id, const struct xcase* a, const struct xcase* b) {
 
 void harness(void) {
   a_install();
+#ifdef P_RECORD
+  a_record = true; /* oversize requests (> A_BIG bytes) are refused, as any real allocator would refuse 2^60-element tables */
+#endif
 #ifdef P_SEQ
   FOR_EACH_PAIR(run_seq)
 #else
